@@ -31,9 +31,10 @@ const (
 	opWgAdd
 	opWgDone
 	opWgWait
+	opCondWait
 )
 
-var opNames = [...]string{"start", "spawn", "send", "recv", "close", "lock", "rlock", "wg.Add", "wg.Done", "wg.Wait"}
+var opNames = [...]string{"start", "spawn", "send", "recv", "close", "lock", "rlock", "wg.Add", "wg.Done", "wg.Wait", "cond.Wait"}
 
 type pend struct {
 	kind opKind
@@ -87,7 +88,17 @@ type wgShadow struct {
 	vc []int
 }
 
+// condShadow: the waiters of a sync.Cond in arrival order (Signal wakes the oldest one, as the runtime's
+// ticket list does), the set of woken threads and the clock of the last Signal / Broadcast.
+type condShadow struct {
+	id      int
+	waiters []int
+	woken   map[int]bool
+	vc      []int
+}
+
 type schedT struct {
+	conds    map[uintptr]*condShadow
 	threads  []*thread
 	cur      *thread
 	chans    map[uintptr]*chanShadow
@@ -107,7 +118,7 @@ type schedT struct {
 var s *schedT
 
 func newSched() *schedT {
-	return &schedT{chans: map[uintptr]*chanShadow{}, locks: map[uintptr]*lockShadow{}, wgs: map[uintptr]*wgShadow{},
+	return &schedT{chans: map[uintptr]*chanShadow{}, locks: map[uintptr]*lockShadow{}, wgs: map[uintptr]*wgShadow{}, conds: map[uintptr]*condShadow{},
 		quiesce: make(chan struct{}), shadow: map[uintptr]*varShadow{}}
 }
 
@@ -176,6 +187,16 @@ func (sc *schedT) wgOf(p uintptr) *wgShadow {
 	return w
 }
 
+func (sc *schedT) condOf(p uintptr) *condShadow {
+	c := sc.conds[p]
+	if c == nil {
+		sc.nobj++
+		c = &condShadow{id: sc.nobj, woken: map[int]bool{}}
+		sc.conds[p] = c
+	}
+	return c
+}
+
 func (sc *schedT) enabled(t *thread) bool {
 	if t.done || t.op == nil {
 		return false
@@ -194,6 +215,8 @@ func (sc *schedT) enabled(t *thread) bool {
 		return !sc.lockOf(t.op.obj).held
 	case opWgWait:
 		return sc.wgOf(t.op.obj).n == 0
+	case opCondWait:
+		return sc.condOf(t.op.obj).woken[t.id]
 	}
 	return true
 }
@@ -207,6 +230,8 @@ func (sc *schedT) describe(t *thread) string {
 		return fmt.Sprintf("T%d:%s(chan#%d len=%d cap=%d)", t.id, opNames[t.op.kind], sc.chanOf(t.op.ch).id, t.op.ch.Len(), t.op.ch.Cap())
 	case opLock:
 		return fmt.Sprintf("T%d:lock(mutex#%d)", t.id, sc.lockOf(t.op.obj).id)
+	case opCondWait:
+		return fmt.Sprintf("T%d:cond.Wait(cond#%d waiters=%d)", t.id, sc.condOf(t.op.obj).id, len(sc.condOf(t.op.obj).waiters))
 	case opWgAdd, opWgDone, opWgWait:
 		return fmt.Sprintf("T%d:%s(wg#%d n=%d)", t.id, opNames[t.op.kind], sc.wgOf(t.op.obj).id, sc.wgOf(t.op.obj).n)
 	}
@@ -667,6 +692,116 @@ func OnceDo(o *sync.Once, f func()) {
 	Lock(m)
 	o.Do(f)
 	Unlock(m)
+}
+
+// ---- sync.Cond
+//
+// Wait = release the Locker (model and real), wait until a Signal / Broadcast that came after the call has
+// picked this thread, take the Locker again.  Signal wakes the oldest waiter, Broadcast all of them; both are
+// scheduling points and releases on the condition (the woken thread inherits the clock).  The real Cond is never
+// used inside a controlled execution: every waiter is a thread of the scheduler.
+
+func lockerUnlock(l sync.Locker) {
+	switch m := l.(type) {
+	case *sync.Mutex:
+		Unlock(m)
+	case *sync.RWMutex:
+		RWUnlock(m)
+	default:
+		l.Unlock()
+	}
+}
+
+func lockerLock(l sync.Locker) {
+	switch m := l.(type) {
+	case *sync.Mutex:
+		Lock(m)
+	case *sync.RWMutex:
+		RWLock(m)
+	default:
+		l.Lock()
+	}
+}
+
+// LockerLock / LockerUnlock: l.Lock() / l.Unlock() on a sync.Locker, dispatched on what it holds.
+func LockerLock(l sync.Locker)   { lockerLock(l) }
+func LockerUnlock(l sync.Locker) { lockerUnlock(l) }
+
+func CondWait(c *sync.Cond) {
+	if !schedOn() || s.aborting {
+		c.Wait()
+		return
+	}
+	// a goroutine can be preempted between its test of the condition and its registration as a waiter
+	yield(pend{kind: opYield})
+	sc := s
+	if sc.aborting {
+		return
+	}
+	p := reflect.ValueOf(c).Pointer()
+	cs := sc.condOf(p)
+	me := sc.cur
+	cs.waiters = append(cs.waiters, me.id)
+	lockerUnlock(c.L)
+	yield(pend{kind: opCondWait, obj: p})
+	if !sc.aborting {
+		delete(cs.woken, me.id)
+		joinVC(sc.cur, cs.vc)
+	}
+	lockerLock(c.L)
+}
+
+func condWake(c *sync.Cond, all bool) {
+	p := reflect.ValueOf(c).Pointer()
+	yield(pend{kind: opYield})
+	sc := s
+	if sc.aborting {
+		return
+	}
+	cs := sc.condOf(p)
+	me := sc.cur
+	cs.vc = maxVC(cs.vc, me.vc)
+	me.vc[me.id]++
+	for len(cs.waiters) > 0 {
+		cs.woken[cs.waiters[0]] = true
+		cs.waiters = cs.waiters[1:]
+		if !all {
+			break
+		}
+	}
+}
+
+func CondSignal(c *sync.Cond) {
+	if !schedOn() || s.aborting {
+		c.Signal()
+		return
+	}
+	condWake(c, false)
+}
+
+func CondBroadcast(c *sync.Cond) {
+	if !schedOn() || s.aborting {
+		c.Broadcast()
+		return
+	}
+	condWake(c, true)
+}
+
+// SyncMapRange replaces m.Range(f): the entries present when the call starts, visited in the order MapKeys
+// gives (sorted by default, explorer-chosen under MapChoice) - one of the behaviours Range allows.
+func SyncMapRange(m *sync.Map, f func(k, v any) bool) {
+	if !active.Load() {
+		m.Range(f)
+		return
+	}
+	AtomicYield()
+	snap := map[any]any{}
+	m.Range(func(k, v any) bool { snap[k] = v; return true })
+	for _, k := range MapKeys(snap) {
+		if !f(k, snap[k]) {
+			return
+		}
+	}
 }
 
 // ---- RWMutex hooks (write side shares the mutex shadow; read locks are counted)
